@@ -177,6 +177,13 @@ class VFile:
         return "".join(self.lines).splitlines(True)
 
 
+class BoolArr:
+    """Result of an element-wise comparison of arrays (each entry already decided on this path)."""
+
+    def __init__(self, flat, shape):
+        self.flat, self.shape = flat, shape
+
+
 class DDict(dict):
     """collections.defaultdict"""
     default_factory = None
@@ -209,9 +216,8 @@ STR = ClassRef("str")
 BOOL = ClassRef("bool")
 
 LOSSY_NP = {"round", "round_", "around", "rint", "trunc", "floor", "ceil", "fix", "clip", "float32", "float16",
-            "int32", "int64", "int_", "intc", "half", "single", "nan_to_num", "sign", "abs", "absolute", "fabs",
-            "maximum", "minimum", "nextafter", "spacing"}
-LOSSY_BUILTINS = {"round", "int", "abs"}
+            "int32", "int64", "int_", "intc", "half", "single", "nan_to_num", "nextafter", "spacing"}
+LOSSY_BUILTINS = {"round", "int"}
 OK_DTYPES = {"float64", "float", "double", "float_", "longdouble"}
 
 PI_NAME = "pi"
@@ -261,6 +267,7 @@ class Interp:
         self.atan2_uses = 0
         self.wraps = []          # (marker name, inner + offset) per unwrap, in mark mode
         self.vfs = None          # virtual file system: path -> VFile
+        self.thin = False
         self.ph_of = {}          # poly key -> placeholder token
         self.ph_val = {}         # placeholder token -> Poly
 
@@ -303,6 +310,8 @@ class Interp:
             self.script.append(True)
         self.pos += 1
         self.facts[key] = (remaining & ts) if ans else (remaining - ts)
+        if self.facts[key] == {0}:
+            self.thin = True     # this path assumes an exact equality of symbolic values (a measure-zero set)
         self.conds.append("%s is %s" % (desc, ans))
         return ans
 
@@ -329,6 +338,21 @@ class Interp:
                 if s2 <= {1} and c0 <= 0:
                     return True
         return False
+
+    def equalities(self):
+        """(substitution {var: constant} implied by the exact-equality decisions of this path, all of them of that simple form?)"""
+        sub, simple = {}, True
+        for k, signs in self.facts.items():
+            if signs != {0}:
+                continue
+            terms = dict(k)
+            lin = [(m, c) for m, c in terms.items() if m != ()]
+            if len(lin) == 1 and len(lin[0][0]) == 1 and lin[0][0][0][1] == 1:
+                v = poly.R.vars[lin[0][0][0][0]]
+                sub[v] = -Fraction(terms.get((), 0)) / Fraction(lin[0][1])
+            else:
+                simple = False
+        return sub, simple
 
     def known_zero(self, d):
         """Is polynomial d known to vanish on this path (identically, or by an equality decision taken earlier)?"""
@@ -647,6 +671,14 @@ class Interp:
             return self.decide_sign(v, {-1, 1}, "%s != 0" % v.short(60))
         if isinstance(v, (list, tuple, dict, str, set, frozenset)):
             return len(v) > 0
+        if isinstance(v, BoolArr):
+            if len(v.flat) == 1:
+                return v.flat[0]
+            raise PathRaise("ValueError(truth value of an array with more than one element is ambiguous)", self.where(node) if node is not None else "?")
+        if isinstance(v, Arr):
+            if len(v.flat()) == 1:
+                return self.truth(v.flat()[0], node)
+            raise PathRaise("ValueError(truth value of an array with more than one element is ambiguous)", self.where(node) if node is not None else "?")
         if isinstance(v, Obj):
             if self.pkg.lookup(v.cls, "__bool__") or self.pkg.lookup(v.cls, "__len__"):
                 raise self.unsupported("truthiness of %s with __bool__/__len__" % v.cls, node)
@@ -812,6 +844,26 @@ class Interp:
                 # sign of the denominator unknown: decide the sign of num*den instead (same sign as the quotient where defined)
                 pr = q.num * q.den
                 return self.decide_sign(pr, SIGNS_OF[type(op)], "(%s)/(%s) %s 0" % (q.num.short(40), q.den.short(40), OPNAME[type(op)]))
+        if (isinstance(l, Arr) or isinstance(r, Arr)) and type(op) in SIGNS_OF:
+            la = l if isinstance(l, Arr) else None
+            ra = r if isinstance(r, Arr) else None
+            if la is not None and ra is not None and la.shape != ra.shape:
+                a, b = la.shape[::-1], ra.shape[::-1]
+                if all(x == y or x == 1 or y == 1 for x, y in zip(a, b)):
+                    raise self.unsupported("broadcast comparison", node)
+                if isinstance(op, (ast.Eq, ast.NotEq)):
+                    return isinstance(op, ast.NotEq)
+                raise PathRaise("ValueError(operands could not be broadcast together)", self.where(node))
+            shape = (la or ra).shape
+            lf = la.flat() if la is not None else [self.scalar(l, node)] * len(ra.flat())
+            rf = ra.flat() if ra is not None else [self.scalar(r, node)] * len(la.flat())
+            out = []
+            for x, y in zip(lf, rf):
+                if not isinstance(x, Poly) or not isinstance(y, Poly):
+                    raise self.unsupported("comparison of array elements %r, %r" % (x, y), node)
+                d = x - y
+                out.append(self.decide_sign(d, SIGNS_OF[type(op)], "%s %s 0" % (d.short(60), OPNAME[type(op)])))
+            return BoolArr(out, shape)
         if isinstance(op, (ast.Eq, ast.NotEq)):
             e = self.equal(l, r, node)
             return e if isinstance(op, ast.Eq) else not e
@@ -1156,6 +1208,8 @@ class Interp:
                 return v
         if isinstance(v, VFile):
             return Opaque("vfile", v, a)
+        if isinstance(v, BoolArr) and a in ("all", "any"):
+            return Opaque("callable", (lambda v=v, a=a: all(v.flat) if a == "all" else any(v.flat)))
         if isinstance(v, (list, dict, str, tuple)):
             return Opaque("pymeth", v, a)
         if v is None:
@@ -1542,6 +1596,10 @@ class Interp:
             if isinstance(args[0], str):
                 return self.parse_number(args[0], n, integer=False)
             return self.scalar(args[0], n)
+        if name == "abs":
+            return self.absval(args[0], n)
+        if name == "bool":
+            return self.truth(args[0], n)
         if name == "open":
             path = args[0]
             mode = args[1] if len(args) > 1 else kw.get("mode", "r")
@@ -1848,6 +1906,69 @@ class Interp:
                 k = len(a.data)
                 return Arr([[a.data[i] if i == j else Poly() for j in range(k)] for i in range(k)], 2)
             return Arr([a.data[i][i] for i in range(min(a.shape))], 1)
+        if name in ("abs", "absolute", "fabs"):
+            return self.absval(self.maybe_arr(args[0], n), n)
+        if name == "sign":
+            v = self.maybe_arr(args[0], n)
+            f = lambda x: (Poly.const(1) if self.decide_sign(x, {1}, "%s > 0" % x.short(40)) else
+                           (Poly.const(0) if self.decide_sign(x, {0}, "%s == 0" % x.short(40)) else Poly.const(-1)))
+            return v.map(f) if isinstance(v, Arr) else f(self.scalar(v, n))
+        if name in ("maximum", "minimum", "fmax", "fmin"):
+            a, b = self.maybe_arr(args[0], n), self.maybe_arr(args[1], n)
+            def pick(x, y):
+                d = x - y
+                gt = self.decide_sign(d, {1}, "%s > 0" % d.short(40))
+                return (x if gt else y) if name in ("maximum", "fmax") else (y if gt else x)
+            if isinstance(a, Arr) and isinstance(b, Arr):
+                return a.zip(b, pick)
+            if isinstance(a, Arr):
+                return a.map(lambda x: pick(x, self.scalar(b, n)))
+            if isinstance(b, Arr):
+                return b.map(lambda y: pick(self.scalar(a, n), y))
+            return pick(self.scalar(a, n), self.scalar(b, n))
+        if name in ("all", "any"):
+            v = args[0]
+            if isinstance(v, BoolArr):
+                return all(v.flat) if name == "all" else any(v.flat)
+            if isinstance(v, bool):
+                return v
+            if isinstance(v, (list, tuple)):
+                vals = [self.truth(x, n) for x in v]
+                return all(vals) if name == "all" else any(vals)
+            if isinstance(v, Arr):
+                vals = [self.truth(x, n) for x in v.flat()]
+                return all(vals) if name == "all" else any(vals)
+            raise self.unsupported("np.%s of %r" % (name, v), n)
+        if name in ("isclose", "allclose"):
+            a, b = self.maybe_arr(args[0], n), self.maybe_arr(args[1], n)
+            fa = a.flat() if isinstance(a, Arr) else [self.scalar(a, n)]
+            fb = b.flat() if isinstance(b, Arr) else [self.scalar(b, n)]
+            if len(fa) != len(fb):
+                if len(fa) == 1:
+                    fa = fa * len(fb)
+                elif len(fb) == 1:
+                    fb = fb * len(fa)
+                else:
+                    raise PathRaise("ValueError(shapes)", self.where(n))
+            res = [self.decide_sign(x - y, {0}, "%s is close to 0" % (x - y).short(40)) for x, y in zip(fa, fb)]
+            if name == "allclose":
+                return all(res)
+            return BoolArr(res, (len(res),)) if isinstance(a, Arr) or isinstance(b, Arr) else res[0]
+        if name == "where" and len(args) == 3:
+            c, a, b = args
+            if isinstance(c, bool):
+                return a if c else b
+            if isinstance(c, BoolArr):
+                fa = a.flat() if isinstance(a, Arr) else [self.scalar(a, n)] * len(c.flat)
+                fb = b.flat() if isinstance(b, Arr) else [self.scalar(b, n)] * len(c.flat)
+                flat = [x if k else y for k, x, y in zip(c.flat, fa, fb)]
+                if len(c.shape) == 2:
+                    w = c.shape[1]
+                    return Arr([flat[i * w:(i + 1) * w] for i in range(c.shape[0])], 2)
+                return Arr(flat, 1)
+        if name == "count_nonzero":
+            v = self.to_arr(args[0], n)
+            return Poly.const(sum(1 for x in v.flat() if self.truth(x, n)))
         if name == "array_equal":
             a, b = self.to_arr(args[0], n), self.to_arr(args[1], n)
             if a.shape != b.shape:
@@ -1858,6 +1979,15 @@ class Interp:
         if name == "isscalar":
             return isinstance(args[0], Poly)
         raise self.unsupported("numpy/math function %s" % name, n)
+
+    def absval(self, v, n):
+        if isinstance(v, Arr):
+            return v.map(lambda x: self.absval(x, n))
+        x = self.scalar(v, n)
+        c = x.const_value()
+        if c is not None:
+            return Poly.const(abs(Fraction(c)))
+        return x if self.decide_sign(x, {0, 1}, "%s >= 0" % x.short(40)) else -x
 
     def maybe_arr(self, v, n):
         if isinstance(v, (list, tuple)):
@@ -1926,14 +2056,14 @@ def _dotp(r, c):
 
 OPNAME = {ast.Lt: "<", ast.LtE: "<=", ast.Gt: ">", ast.GtE: ">=", ast.Eq: "==", ast.NotEq: "!="}
 ARR_METHODS = {"tocsr", "tocsc", "tolil", "todense", "toarray", "tocoo", "any", "view", "copy", "dot", "transpose", "flatten", "ravel", "tolist", "astype", "reshape", "sum", "round"}
-BUILTIN_NAMES = {"open", "str", "repr", "set", "frozenset", "dict", "isinstance", "issubclass", "type", "len", "range", "zip", "enumerate", "reversed", "list", "tuple",
+BUILTIN_NAMES = {"abs", "bool", "open", "str", "repr", "set", "frozenset", "dict", "isinstance", "issubclass", "type", "len", "range", "zip", "enumerate", "reversed", "list", "tuple",
                  "all", "any", "sum", "max", "min", "super", "print", "round", "int", "abs", "NotImplementedError"}
 
 
 # ----------------------------------------------------------------------------------------------- exploration
 class PathResult:
-    def __init__(self, conds, value=None, raised=None, events=None, wrap_uses=0):
-        self.conds, self.value, self.raised, self.events, self.wrap_uses = conds, value, raised, events or [], wrap_uses
+    def __init__(self, conds, value=None, raised=None, events=None, wrap_uses=0, thin=False):
+        self.conds, self.value, self.raised, self.events, self.wrap_uses, self.thin = conds, value, raised, events or [], wrap_uses, thin
 
 
 def explore(pkg, run, hook=None, max_paths=64):
@@ -1945,9 +2075,9 @@ def explore(pkg, run, hook=None, max_paths=64):
         it = Interp(pkg, script=script, hook=hook)
         try:
             val = run(it)
-            res = PathResult(list(it.conds), value=val, events=it.events, wrap_uses=it.wrap_uses)
+            res = PathResult(list(it.conds), value=val, events=it.events, wrap_uses=it.wrap_uses, thin=it.thin)
         except PathRaise as e:
-            res = PathResult(list(it.conds), raised=e, events=it.events, wrap_uses=it.wrap_uses)
+            res = PathResult(list(it.conds), raised=e, events=it.events, wrap_uses=it.wrap_uses, thin=it.thin)
         results.append(res)
         if len(results) > max_paths:
             raise Unsupported("more than %d paths" % max_paths)
